@@ -665,6 +665,32 @@ fn gen_garbage(r: &mut Rng, idx: usize, thorough: bool) -> Value {
               json!("neg_s"), json!("s_plus_n")] {
         ops.push(verify_op(v, &msg, t, 0, &msg, t, m));
     }
+    let mut keys = keys;
+    if alg == "ed25519" {
+        // small-order public keys (identity, order 2, order 4, order 8) are importable; a cofactorless non-strict verifier accepts
+        // (R = identity, S = 0) under them for every / every second / fourth / eighth message; `verify_strict` must not
+        const WEAK: [&str; 5] = [
+            "0100000000000000000000000000000000000000000000000000000000000000",
+            "ecffffffffffffffffffffffffffffffffffffffffffffffffffffffffffff7f",
+            "0000000000000000000000000000000000000000000000000000000000000000",
+            "0000000000000000000000000000000000000000000000000000000000000080",
+            "26e8958fc2b227b045c3f489f2ef98f0d5dfac05d3c63339b13802886d53fc05",
+        ];
+        for w in WEAK {
+            let ki = keys.len();
+            keys.push(json!({"alg": "ed25519", "src": "public", "data": w}));
+            for mi in 0..(if thorough { 64 } else { 16 }) {
+                let m = [mi as u8, (idx & 0xff) as u8];
+                let mut raw = unhex(WEAK[0]);
+                raw.extend_from_slice(&[0u8; 32]);
+                ops.push(verify_raw(ki, &m, t, &raw));
+                let mut raw2 = unhex(w);
+                raw2.extend_from_slice(&[0u8; 32]);
+                ops.push(verify_raw(ki, &m, t, &raw2));
+            }
+            ops.push(sign_op(ki, &msg, t));
+        }
+    }
     json!({"kind": "c13:garbage", "keys": keys, "ops": ops})
 }
 
